@@ -87,8 +87,9 @@ extern "C" void h_subnet_mask()
     const bool want_valid = (oa.net == R_IPV4 || oa.net == R_IPV6) && om.net == oa.net && plen >= 0;
     VASSERT(valid == want_valid, "netmask subnet valid iff same IP family and mask is contiguous ones then zeros");
     bool want_match = false;
-    if (want_valid && ref_valid(ob) && ob.net == oa.net) want_match = same_prefix(oa, ob, plen);
+    if (want_valid && ref_valid(ob) && ob.net == oa.net) want_match = ((oa.v ^ ob.v) & om.v) == 0;
     VASSERT(match == want_match, "Match iff address valid, same network and equal under the mask");
+    if (want_valid && ob.net == oa.net) VASSERT((((oa.v ^ ob.v) & om.v) == 0) == same_prefix(oa, ob, plen), "oracle self-check: mask equality is prefix equality");
     if (want_valid) {
         // the two ways of writing the same subnet denote the same value
         const CSubNet sc(a, (uint8_t)plen);
@@ -102,8 +103,10 @@ extern "C" void h_subnet_mask()
     VWITNESS(valid && plen > 8 && (plen & 7) != 0 && match && oa.v != ob.v, "contiguous non-byte-aligned mask accepted and matching a different address");
     VWITNESS(valid && !match && ref_valid(ob), "valid address outside the masked network");
 #endif
+#elif CM != CLS_INT
+    VWITNESS(!valid && plen >= 0, "family mismatch / non-IP base rejected although the mask is contiguous");
 #else
-    VWITNESS(!valid && plen >= 0 && CM != CLS_INT, "family mismatch / non-IP base rejected although the mask is contiguous");
+    VWITNESS(!valid, "internal address as netmask rejected");
 #endif
     VREACH("end");
 }
